@@ -143,6 +143,7 @@ function corpus(depth) {
     const dn = scopes.map((x) => x[0] + (x[1] ? '=' + x[1] : '')).join('+')
     push(`slot-element-with-scopes:${dn}|sibling|${nm}`, [el('c', [], [slot('s', [], { slotScopes: scopes }), probe(id(nm))])])
     push(`slot-element-with-scopes:${dn}|for-sibling|${nm}`, [el('c', [], [slot('s', [], { slotScopes: scopes }), el('f', [], [probe(M.arr([id(nm), id('item')]))], { wxFor: { list: E(id('list')) } })])])
+    push(`slot-element-with-scopes:${dn}|own-attributes|${nm}`, [el('c', [], [slot(E(id(nm)), [['val', E(M.arr([id(nm), id('a'), id('v')]))]], { slotScopes: scopes })])])
     push(`slot-element-with-scopes:${dn}|top-level|${nm}`, [slot(undefined, [], { slotScopes: scopes }), probe(id(nm))])
   }
   // an empty-bodied scoped element followed by a scoped sibling with other names
